@@ -196,15 +196,15 @@ Proof. exact (conj C11_month_plus_any_l (conj month_minus_months_ok (month_incde
 Print Assumptions C11_month_ops.
 
 (** * day arithmetic *)
-(* day +/- days is exact while the result is in 0..254; any other result fires the constructor's
+(* day +/- days is exact while the result is in 0..255; any other result fires the constructor's
    precondition (the operator never wraps silently) *)
 Theorem C11_day_plus_minus :
   (forall d dd, 0 <= d <= 255 -> -2147483648 <= dd <= 2147483647 ->
-    (0 <= d + dd <= 254 -> day_plus_m d dd = Ok (d + dd)) /\
-    (~ (0 <= d + dd <= 254) -> day_plus_m d dd = Contract) /\
-    (0 <= d - dd <= 254 -> day_minus_days_m d dd = Ok (d - dd)))
+    (0 <= d + dd <= 255 -> day_plus_m d dd = Ok (d + dd)) /\
+    (~ (0 <= d + dd <= 255) -> day_plus_m d dd = Contract) /\
+    (0 <= d - dd <= 255 -> day_minus_days_m d dd = Ok (d - dd)))
   /\
-  (forall v, 0 <= v <= 254 -> day_ctor_m v = Ok v /\ month_ctor_m v = Ok v).
+  (forall v, 0 <= v <= 255 -> day_ctor_m v = Ok v /\ month_ctor_m v = Ok v).
 Proof. exact (conj C11_day_plus_l (C11_day_month_ctor_l)). Qed.
 Print Assumptions C11_day_plus_minus.
 
@@ -218,10 +218,10 @@ Proof.
 Qed.
 Print Assumptions C11_day_compound.
 
-(* recorded defect KF-C11-day-month-ctor-255: the documented value 255 is rejected *)
-Theorem C11_day_ctor_255_refuted : exists d, 0 <= d <= 255 /\ day_ctor_m d <> Ok d /\ month_ctor_m d <> Ok d.
-Proof. exact day_ctor_255_refuted. Qed.
-Print Assumptions C11_day_ctor_255_refuted.
+(* the day / month constructors reject exactly the values the stored type cannot hold *)
+Theorem C11_day_month_ctor_contract : forall d, 255 < d -> day_ctor_m d = Contract /\ month_ctor_m d = Contract.
+Proof. exact day_ctor_contract. Qed.
+Print Assumptions C11_day_month_ctor_contract.
 
 (** * ok() of the partial dates *)
 Theorem C11_partial_ok : forall y m d w idx,
@@ -307,5 +307,5 @@ Example C11_cal_nonvacuous :
   /\ ymwd_ok_m 2024 2 5 5 = Ok false /\ ymwd_exists 2024 2 4 5 = true
   /\ ymwdl_to_days_m 2024 2 4 = Ok 19782
   /\ ymd_to_days_m 2024 3 0 = Ok 19782
-  /\ day_plus_m 254 1 = Contract /\ day_minus_days_m 1 2 = Contract /\ day_sub_assign_m 1 2 = 255.
+  /\ day_plus_m 254 1 = Ok 255 /\ day_plus_m 255 1 = Contract /\ day_minus_days_m 1 2 = Contract /\ day_sub_assign_m 1 2 = 255.
 Proof. vm_compute. repeat split; congruence. Qed.
